@@ -24,7 +24,6 @@ def one(ctx, rng, k):
     sgy = ctx.path('full.sgy')
     fmt = [5, 1][k % 2]
     dt = int(rng.choice([4000, 2000, 1001]))
-    mksegy.make_segy(sgy, arr, ilines=il, xlines=xl, fmt=fmt, dt_us=dt, headers=lambda i, x, t: H[i][x])
     a0, a1 = sorted(rng.choice(n[0] + 1, size=2, replace=False).tolist())
     b0, b1 = sorted(rng.choice(n[1] + 1, size=2, replace=False).tolist())
     if k % 4 == 0:
@@ -39,6 +38,26 @@ def one(ctx, rng, k):
         a0, a1 = (0, 2) if a0 == 0 else (a1 - 2, a1) if a1 >= 2 else (0, 2)
     if b1 - b0 < 2:
         b0, b1 = (0, 2) if b0 == 0 else (b1 - 2, b1) if b1 >= 2 else (0, 2)
+    # header content adversarial to the window: pairs of fields that coincide, and fields that take a special value,
+    # exactly on a chosen subset of {file first, file last, window first, window last} - what a heuristic evaluated
+    # at the wrong traces gets wrong
+    special = {'file_first': (0, 0), 'file_last': (n[0] - 1, n[1] - 1), 'win_first': (a0, b0), 'win_last': (a1 - 1, b1 - 1)}
+    cand = [c for c in mksegy.ALL_FIELDS if mksegy.FIELD_WIDTH[c] == 4 and c not in (189, 193, 37, 115, 117) and c not in [p_[0] for p_ in plan.plan]]
+    picks = [int(c) for c in rng.choice(cand, size=5, replace=False)]
+    names = list(special)
+    S1 = set(names[j] for j in range(4) if rng.random() < .5)
+    S2 = set(names[j] for j in range(4) if rng.random() < .5)
+    S3 = set(names[j] for j in range(4) if rng.random() < .5)
+    for i in range(n[0]):
+        for x in range(n[1]):
+            t = i * n[1] + x
+            at = set(nm for nm, pos in special.items() if pos == (i, x))
+            H[i][x][picks[0]] = 7 + 3 * t
+            H[i][x][picks[1]] = 7 + 3 * t if at & S1 else 100000 + 5 * t      # coincides with picks[0] exactly on S1
+            H[i][x][picks[2]] = 0 if at & S2 else 11 + t                       # zero exactly on S2
+            H[i][x][picks[3]] = 4242 if (at & S3 or not at) else 17 + t        # constant except on the special traces not in S3
+            H[i][x][picks[4]] = 7 + 3 * t if at & (set(names) - S1) else -5 - t  # coincides with picks[0] on the complement
+    mksegy.make_segy(sgy, arr, ilines=il, xlines=xl, fmt=fmt, dt_us=dt, headers=lambda i, x, t: H[i][x])
     sub = ctx.path('sub.sgy')
     mksegy.make_segy(sub, arr[a0:a1, b0:b1], ilines=il[a0:a1], xlines=xl[b0:b1], fmt=fmt, dt_us=dt,
                      headers=lambda i, x, t: H[i + a0][x + b0])
@@ -48,7 +67,8 @@ def one(ctx, rng, k):
     ri = bool((k // 2) % 2)
     q, bs = [(16, None), (32, (4, 4, -1)), (16, (8, 8, -1)), (8, (4, 8, -1))][k % 4]
     desc = {'n': n, 'window': (a0, a1, b0, b1), 'mode': mode, 'reduce_iops': ri, 'q': q, 'bs': bs, 'il': il[:2], 'xl': xl[:2],
-            'fmt': fmt, 'plan': [(c, kk) for c, kk, _ in plan.plan]}
+            'fmt': fmt, 'plan': [(c, kk) for c, kk, _ in plan.plan],
+            'coincide_on': sorted(S1), 'zero_on': sorted(S2), 'const_except': sorted(set(names) - S3), 'fields': picks}
     ctx.case((n, (a0, a1, b0, b1), mode, ri, q, bs), sample=desc)
     ctx.stats['mode_' + mode] += 1
     ctx.stats['window_starts_at_0'] += int(a0 == 0 or b0 == 0)
